@@ -7,18 +7,20 @@ pub fn read_tlc_vectors(path: &str, tag: &str) -> Vec<Value> {
     let f = std::fs::File::open(path).unwrap_or_else(|e| panic!("open {path}: {e}"));
     let rd = BufReader::new(f);
     let prefix = format!("<<\"{tag}\", ");
-    let mut out = vec![];
+    let mut out: Vec<(String, Value)> = vec![];
     for line in rd.lines() {
         let line = line.unwrap();
         if let Some(rest) = line.strip_prefix(&prefix) {
             if let Some(lit) = rest.strip_suffix(">>") {
                 let s: String = serde_json::from_str(lit).unwrap_or_else(|e| panic!("bad literal {e}: {lit}"));
                 let v: Value = parse_json(&s).unwrap_or_else(|e| panic!("bad json {e}: {s}"));
-                out.push(v);
+                out.push((s, v));
             }
         }
     }
-    out
+    // TLC's workers print in no particular order: whatever is sampled from the vectors must not depend on it
+    out.sort_by(|a, b| a.0.cmp(&b.0));
+    out.into_iter().map(|(_, v)| v).collect()
 }
 
 /// serde_json with the recursion limit lifted (deep lists are ordinary CLVM values)
@@ -170,4 +172,13 @@ pub fn scope_record(idents: &[String], result: &Value) -> Option<Value> {
         return None;
     }
     Some(serde_json::json!({"idents": idents, "events": coms}))
+}
+
+/// nesting depth of a JSON value (TLC's JSON reader stops at 255)
+pub fn json_depth(v: &Value) -> usize {
+    match v {
+        Value::Array(a) => 1 + a.iter().map(json_depth).max().unwrap_or(0),
+        Value::Object(o) => 1 + o.values().map(json_depth).max().unwrap_or(0),
+        _ => 0,
+    }
 }
